@@ -13,12 +13,15 @@ ew.native_witnesses = ["c11_wit_extend_overrides_in_place", "c11_wit_extend_by_n
 ex = VerusUnit("c11_extend", "c11_extend", rlimit=30, paired_kani=(ew, []))
 cw = KaniUnit("c11_collect_wit", "routee-compass", modules=[dict(file="routee-compass/src/app/search/search_app_ops.rs", src="c11_collect_wit.rs")], harnesses=[])
 cw.native_witnesses = ["c11_wit_query_declarations_come_after_the_models_features"]
-UNITS = [v_unit, sm, ex, k_unit, ew, cw]
+ins = VerusUnit("c11_instance", "c11_instance", rlimit=30)
+UNITS = [v_unit, sm, ex, ins, k_unit, ew, cw]
 EXPLANATION = ("CompactOrderedHashMap::{empty,len,is_empty,contains_key,get,get_index,insert} extracted verbatim and verified by Verus at every size "
                "against an abstract (slot map, value map) view with a whole-view postcondition for insert; representation invariant: slots < len, pairwise distinct; "
                "StateModel::extend (verbatim, Verus, any number of entries): the per-query model is the configured container with every declared (name, feature) inserted in order -- an existing name keeps its slot "
-               "and takes the declared feature, new names are appended; refused exactly when a declaration meets a same-named feature that differs under StateFeature's ==; StateModel accessors: frame (unit c03_statemodel)")
+               "and takes the declared feature, new names are appended; refused exactly when a declaration meets a same-named feature that differs under StateFeature's ==; StateModel accessors: frame (unit c03_statemodel); "
+               "SearchApp::build_search_instance (verbatim, Verus, callees through deterministic contracts): the per-query state model IS the configured model extended by the features collected for this query, and the cost model "
+               "and the frontier model are built against THAT model -- the one the search instance carries -- never the configured one")
 NOT_DECIDED = ("get_pair / keys / iter / to_vec / new on the HashMap-backed representation (sizes >= 5) are only exercised by concrete witnesses "
-               "(Verus rejects their iterator-adapter text, CBMC cannot carry symbolic HashMap keys); StateModel::new / initial_state / iter (iterator adapters; witnesses); the clone pipeline at the head of extend (assumed equal container; witness); collect_features")
+               "(Verus rejects their iterator-adapter text, CBMC cannot carry symbolic HashMap keys); StateModel::new / initial_state / iter (iterator adapters; witnesses); the clone pipeline at the head of extend (assumed equal container; witness); collect_features (HashMap pipelines: witness only)")
 ASSUMPTIONS = ["R6: key and value types instantiated at u64 (Eq/Hash/Clone laws of the real key types String/EdgeId assumed)",
                "assumed contract of std HashMap::from([(K,V); N]) (inserts the pairs in order)"]
